@@ -346,159 +346,6 @@ func indexKeyClass(key string) string {
 	return key
 }
 
-// diffTable compares one table of two dumps and names every difference by its shape:
-//
-//	<p><table>:rows-lost / :rows-added     a row of the original has no counterpart after restore / vice versa
-//	<p><table>:<Field>                     paired rows (same position in id-index order) differ in that top-level field
-//	<p><table>:<Field>-case                … and only by letter case
-//	<p><table>:RaftIndex                   paired rows differ in nothing but Create/ModifyIndex
-//	<p>index:<key class>[:lost|:added]     the index table is paired by key; "service.web" has class "service.*"
-//
-// (gateway-services RaftIndex keeps the signature announced in DESIGN §6 #13: snap:gateway-services-raftindex.)
-func diffTable(prefix, t string, a, b []string) []finding {
-	if tableDiff(a, b) == "" {
-		return nil
-	}
-	var out []finding
-	add := func(sig, desc string) {
-		for _, f := range out {
-			if f.sig == sig {
-				return
-			}
-		}
-		out = append(out, finding{sig, desc})
-	}
-	if t == "index" {
-		am, bm := map[string]string{}, map[string]string{}
-		for _, r := range a {
-			f := topFields(r)
-			am[strings.ToLower(f["Key"])] = f["Value"]
-		}
-		for _, r := range b {
-			f := topFields(r)
-			bm[strings.ToLower(f["Key"])] = f["Value"]
-		}
-		keys := map[string]bool{}
-		for k := range am {
-			keys[k] = true
-		}
-		for k := range bm {
-			keys[k] = true
-		}
-		ks := make([]string, 0, len(keys))
-		for k := range keys {
-			ks = append(ks, k)
-		}
-		sort.Strings(ks)
-		for _, k := range ks {
-			av, aok := am[k]
-			bv, bok := bm[k]
-			switch {
-			case aok && !bok:
-				add(prefix+"index:"+indexKeyClass(k)+":lost", fmt.Sprintf("index row %s=%s is missing after restore", k, av))
-			case !aok && bok:
-				add(prefix+"index:"+indexKeyClass(k)+":added", fmt.Sprintf("index row %s=%s exists only after restore", k, bv))
-			case av != bv:
-				add(prefix+"index:"+indexKeyClass(k), fmt.Sprintf("index row %s: original=%s restored=%s", k, av, bv))
-			}
-		}
-		if len(out) == 0 {
-			add(prefix+"index:spelling", "index rows differ in key spelling / order only: "+tableDiff(a, b))
-		}
-		return out
-	}
-	if t == "usage" {
-		am, bm := map[string]map[string]string{}, map[string]map[string]string{}
-		var ids []string
-		for _, r := range a {
-			f := topFields(r)
-			am[f["ID"]] = f
-			ids = append(ids, f["ID"])
-		}
-		for _, r := range b {
-			f := topFields(r)
-			bm[f["ID"]] = f
-			if am[f["ID"]] == nil {
-				ids = append(ids, f["ID"])
-			}
-		}
-		for _, id := range ids {
-			fa, fb := am[id], bm[id]
-			name := strings.Trim(id, `"`)
-			switch {
-			case fb == nil && fa["Count"] == "":
-				add(prefix+"usage:zero-row-lost", fmt.Sprintf("usage row %s (count 0, index %s) does not exist after restore", name, fa["Index"]))
-			case fb == nil:
-				add(prefix+"usage:"+name+":lost", fmt.Sprintf("usage row %s count=%s is missing after restore", name, fa["Count"]))
-			case fa == nil:
-				add(prefix+"usage:"+name+":added", fmt.Sprintf("usage row %s count=%s exists only after restore", name, fb["Count"]))
-			case fa["Count"] != fb["Count"]:
-				add(prefix+"usage:"+name+":Count", fmt.Sprintf("usage row %s: original count=%s index=%s, restored count=%s index=%s", name, fa["Count"], fa["Index"], fb["Count"], fb["Index"]))
-			case fa["Index"] != fb["Index"]:
-				add(prefix+"usage:Index", fmt.Sprintf("usage row %s (count %s): original index=%s restored index=%s", name, fa["Count"], fa["Index"], fb["Index"]))
-			}
-		}
-		return out
-	}
-	if len(a) != len(b) {
-		sig := prefix + t + ":rows-lost"
-		if len(b) > len(a) {
-			sig = prefix + t + ":rows-added"
-		}
-		add(sig, fmt.Sprintf("table %s: %d rows before, %d after restore: %s", t, len(a), len(b), tableDiff(a, b)))
-		return out
-	}
-	for i := range a {
-		if a[i] == b[i] {
-			continue
-		}
-		fa, fb := topFields(a[i]), topFields(b[i])
-		names := map[string]bool{}
-		for k := range fa {
-			names[k] = true
-		}
-		for k := range fb {
-			names[k] = true
-		}
-		var diff []string
-		for k := range names {
-			if fa[k] != fb[k] {
-				diff = append(diff, k)
-			}
-		}
-		sort.Strings(diff)
-		desc := fmt.Sprintf("table %s row %d: original=%s restored=%s", t, i, clip(a[i], 700), clip(b[i], 700))
-		onlyRaft := len(diff) == 1 && diff[0] == "RaftIndex"
-		for _, k := range diff {
-			if k == "RaftIndex" && !onlyRaft {
-				continue // subsumed by the content difference of the same row
-			}
-			sig := prefix + t + ":" + k
-			if k == "RaftIndex" && t == "gateway-services" && prefix == "snap:" {
-				sig = "snap:gateway-services-raftindex"
-			}
-			if strings.EqualFold(fa[k], fb[k]) {
-				sig += "-case"
-			}
-			add(sig, desc)
-		}
-	}
-	return out
-}
-
-func compareDumps(prefix string, a, b Dump) []finding {
-	var out []finding
-	seen := map[string]bool{}
-	for _, t := range append(a.tables(), b.tables()...) {
-		if seen[t] {
-			continue
-		}
-		seen[t] = true
-		out = append(out, diffTable(prefix, t, a[t], b[t])...)
-	}
-	return out
-}
-
 var reQName = regexp.MustCompile(`^[A-Za-z]+`)
 var reIdx = regexp.MustCompile(`^idx=\d+ `)
 
@@ -608,6 +455,7 @@ type cutResult struct {
 	dumpA    Dump
 	fatal    string
 	postDiffs int
+	usageKvs string // usage row "kvs" of the restored server: "count;index" or "-"
 }
 
 // checkCut replays h[:k] on a fresh server A, snapshots, restores into B and runs monitors (i)-(iv).
@@ -640,14 +488,25 @@ func checkCut(u *universe, h []entry, k int, secondGen bool) *cutResult {
 		return res
 	}
 	res.post = modelState(b.fsm.State())
+	res.usageKvs = "-"
+	if idx, ku, err := b.fsm.State().KVUsage(); err == nil && ku.KVCount > 0 {
+		res.usageKvs = fmt.Sprintf("%d;%d", ku.KVCount, idx)
+	}
 	dumpB := dumpServer(b)
-	tableF := compareDumps("snap:", res.dumpA, dumpB)
+	tableF := compareDumps("snap:", res.dumpA, dumpB, res.last, caseVariants(h[:k]))
 	queryF := compareQueries("snap:", qa, queries(b.fsm.State(), u))
 	// A read API is a function of the tables: its differences are the client-visible face of the table
 	// differences of the same cut, and are reported with them (own signature only when no table differs).
 	if len(tableF) > 0 {
 		if len(queryF) > 0 {
-			vis := " || client-visible through: " + sigList(queryF) + " || e.g. " + queryF[0].desc
+			eg := queryF[0]
+			for _, q := range queryF {
+				if !strings.Contains(q.sig, "Usage") {
+					eg = q
+					break
+				}
+			}
+			vis := " || client-visible through: " + sigList(queryF) + " || e.g. " + eg.desc
 			for i := range tableF {
 				tableF[i].desc += vis
 			}
@@ -668,7 +527,8 @@ func checkCut(u *universe, h []entry, k int, secondGen bool) *cutResult {
 		} else if c, err := restoreServer(sb2); err != nil {
 			res.findings = append(res.findings, finding{"snap:restore-error-gen2", err.Error()})
 		} else {
-			res.findings = append(res.findings, compareDumps("snap:gen2:", dumpB, dumpServer(c))...)
+			last2, _, _ := readStream(sb2)
+			res.findings = append(res.findings, compareDumps("snap:gen2:", dumpB, dumpServer(c), last2, caseVariants(h[:k]))...)
 		}
 	}
 
@@ -682,7 +542,7 @@ func checkCut(u *universe, h []entry, k int, secondGen bool) *cutResult {
 		}
 	}
 	if k < len(h) {
-		pt := compareDumps("snap:post:", dumpServer(a), dumpServer(b))
+		pt := compareDumps("snap:post:", dumpServer(a), dumpServer(b), 0, caseVariants(h))
 		postF = append(postF, pt...)
 		if len(pt) == 0 {
 			postF = append(postF, compareQueries("snap:post:", queries(a.fsm.State(), u), queries(b.fsm.State(), u))...)
@@ -700,6 +560,24 @@ func checkCut(u *universe, h []entry, k int, secondGen bool) *cutResult {
 		}
 	}
 	return res
+}
+
+// caseVariants: did these entries register two service names / ids that differ by letter case only?
+func caseVariants(h []entry) bool {
+	seen := map[string]string{}
+	for _, e := range h {
+		for _, n := range e.svcNames {
+			if n == "" {
+				continue
+			}
+			l := strings.ToLower(n)
+			if p, ok := seen[l]; ok && p != n {
+				return true
+			}
+			seen[l] = n
+		}
+	}
+	return false
 }
 
 func hasSig(fs []finding, sig string) bool {
@@ -814,8 +692,8 @@ func main() {
 			// correspondence line for the modelled instance
 			if res.pre != nil && res.post != nil {
 				op := fmt.Sprintf("rt %s %s %s %s %s %s", res.pre.encIndex(), res.pre.encKVs(), res.pre.encTombs(), res.pre.encSessions(), res.pre.encPeerings(), res.pre.encBundles())
-				impl := fmt.Sprintf("last=%d idx=%s kvs=%s tombs=%s sess=%s sc=%s peer=%s tb=%s stream=%s", res.last, res.post.encIndex(), res.post.encKVs(),
-					res.post.encTombs(), res.post.encSessions(), res.post.encSessionChecks(), res.post.encPeerings(), res.post.encBundles(), encStream(res.runs))
+				impl := fmt.Sprintf("last=%d idx=%s kvs=%s tombs=%s sess=%s sc=%s peer=%s tb=%s stream=%s usage=%s", res.last, res.post.encIndex(), res.post.encKVs(),
+					res.post.encTombs(), res.post.encSessions(), res.post.encSessionChecks(), res.post.encPeerings(), res.post.encBundles(), encStream(res.runs), res.usageKvs)
 				run.Line(op, impl)
 				for name, n := range map[string]int{"kvs": len(res.pre.kvs), "tombstones": len(res.pre.tombs), "sessions": len(res.pre.sessions),
 					"session-checks": len(res.pre.sessionChecks), "peerings": len(res.pre.peerings), "bundles": len(res.pre.bundles)} {
